@@ -178,6 +178,26 @@ class Call(Ex):  # min(a,b) / max(a,b) rendered as method calls on values
         return Call(s.f, s.a.sub(m), s.b.sub(m))
 
 
+class Matches(Ex):  # matches!(e, c1 | c2 | ...)  — a Rust macro call inside a condition
+    def __init__(s, e, consts):
+        s.e, s.consts = e, consts
+
+    def rs(s, vk):
+        inner = s.e.rs(vk)
+        if inner.startswith("*"):
+            inner = inner[1:]
+        return "matches!(%s, %s)" % (inner, " | ".join(rust_repr(c) for c in s.consts))
+
+    def ev(s, env):
+        return s.e.ev(env) in s.consts
+
+    def vars(s):
+        return s.e.vars()
+
+    def sub(s, m):
+        return Matches(s.e.sub(m), s.consts)
+
+
 # patterns (for ?pat arguments, if let, let, for)
 class PV:  # binds a variable
     def __init__(s, n):
